@@ -1,7 +1,10 @@
 package h
 
 import (
+	"errors"
+
 	"cosmossdk.io/math"
+	sdk "github.com/cosmos/cosmos-sdk/types"
 
 	adaptercomp "github.com/noble-assets/orbiter/v2/keeper/component/adapter"
 	adaptertypes "github.com/noble-assets/orbiter/v2/types/component/adapter"
@@ -38,9 +41,18 @@ func H_C18_limit() {
 		if !byAuthority {
 			signer = user1.String()
 		}
-		_, err := ms.UpdateParams(w.Ctx, &adaptertypes.MsgUpdateParams{Signer: signer, Params: adaptertypes.Params{MaxPassthroughPayloadSize: v}})
+		// the message may be part of a transaction that fails afterwards (or of a simulation): its writes are discarded
+		reverted := verif.Bool("transaction-reverted-afterwards")
+		var err error
+		_ = verif.Atomically(w.Ctx, func(ctx sdk.Context) error {
+			_, err = ms.UpdateParams(ctx, &adaptertypes.MsgUpdateParams{Signer: signer, Params: adaptertypes.Params{MaxPassthroughPayloadSize: v}})
+			if err == nil && reverted {
+				return errors.New("a later message of the transaction failed")
+			}
+			return err
+		})
 		verif.Assert((err == nil) == byAuthority, "update-succeeds-iff-signed-by-authority")
-		if err == nil {
+		if err == nil && !reverted {
 			current = v
 		}
 	}
